@@ -317,3 +317,13 @@ def check(ctx):
     entries = F.trait_impl('CBORTaggedDecodable', 'Envelope', 'from_untagged_cbor') + F.trait_impl('TryFrom', 'Envelope', 'try_from', trait_full_contains='CBOR') \
         + [F.method1('Envelope', 'try_from_cbor_data'), F.method1('Envelope', 'try_from_cbor')]
     panic.slice_check(ctx, 'C06.9', entries, 'decode')
+
+
+_check_before_errflow = check
+
+
+def check(ctx):
+    _check_before_errflow(ctx)
+    # C06.10 error discipline: no error of a fallible call is turned into "absent / false / default" outside the reviewed table
+    from .. import errflow
+    errflow.check(ctx, 'C06.10', ['src/base/cbor.rs', 'src/base/assertion.rs', 'src/base/envelope_decodable.rs', 'src/string_utils.rs'], 'decode family')
